@@ -283,8 +283,10 @@ pub fn gen_seq(property: &str, profile: &str, seed: u64) -> Plan {
             if sw.rng.chance(1, 3) {
                 alt.max_bits = *sw.rng.pick(&[64usize, 100, 4096]);
             }
+            let off = sw.rng.chance(1, 3);
             if let Some(s0) = plan.sessions.first_mut() {
                 s0.bloom_alt = Some(alt);
+                s0.bloom_alt_off = off;
             }
         }
     }
